@@ -24,7 +24,7 @@ for f in sorted(glob.glob(os.path.join(HERE, "checks", "c*.manifest.json"))):
     CHECKS[pid] = json.load(open(f))
 
 # checks whose files exist but which are still being built / do not yet pass on the unchanged tree
-HOLD = ["C07"]
+HOLD = []
 for pid in HOLD:
     CHECKS.pop(pid, None)
 
